@@ -62,7 +62,37 @@ func Float64ListToDecimalIntList(dst []int64, src []float64) ([]int64, int16, er
 		}
 		decimals[i] = scaled
 	}
+	if !decimalRoundTrips(decimals, minExp, src) {
+		return nil, 0, errCannotEncodeLossless
+	}
 	return decimals, minExp, nil
+}
+
+// decimalRoundTrips reports whether every scaled decimal decodes back to exactly its source
+// value with the arithmetic of DecimalIntListToFloat64List. Mantissas above 2^53 and inexact
+// powers of ten do not, so the caller must fall back to a lossless encoding.
+func decimalRoundTrips(values []int64, exponent int16, src []float64) bool {
+	if exponent >= 0 {
+		scale := math.Pow10(int(exponent))
+		for i, v := range values {
+			if float64(v)*scale != src[i] {
+				return false
+			}
+		}
+		return true
+	}
+	var divisorsBuf [4]float64
+	divisors := computeDivisors(int(-exponent), divisorsBuf[:0])
+	for i, v := range values {
+		result := float64(v)
+		for _, d := range divisors {
+			result /= d
+		}
+		if result != src[i] {
+			return false
+		}
+	}
+	return true
 }
 
 // DecimalIntListToFloat64List restores float64 values from scaled int64s using a decimal exponent.
